@@ -394,3 +394,79 @@ Example C19_plan_nonvacuous :
   ExcludeRealm (true, true) [ex_to] pats = EOk [ex_to] /\
   SchemaDiff sqlite_driver no_skip ex_from' ex_to = Some [ModifyTable [116]%N [AddColumn [99]%N; DropIndex [105]%N]].
 Proof. split; [vm_compute; reflexivity|]. split; vm_compute; reflexivity. Qed.
+
+(** ** C19_exclude_schema_scope (round 3).  The scope rule of exclusion patterns
+    (sql/schema/inspect.go, InspectOptions.Exclude): t = exclude table t; t.c = exclude column,
+    index and foreign key c of table t; likewise with wildcards.  At the scope of ONE schema (every
+    SQLite connection: schema main; MySQL/PostgreSQL URLs bound to a schema; ExcludeSchema) the
+    first component of a pattern names a TABLE -- also when a table, a column or an index is
+    called like the schema (patterns main, main.secret, main.STAR, main.STAR[type=index]) -- and
+    nothing outside that schema is touched.
+
+    For every realm [r] (any names at any level), link mode, schema [s] of it whose name is plain
+    (no dot, double quote, CR, LF, no glob meta character, no closing bracket: [ExcludeSchema]
+    builds schema-dot-pattern without quoting), every pattern list that splits into chains [G] of
+    one or two globs that [filepath.Match] answers for every name (every well-formed glob:
+    C19_scope_chains_ok_wf):  [ExcludeSchema link r s patterns] is exactly [scope_realm]
+    (Excl/ScopeSpec.v): the schemas called [s_name s] filtered by the chains AS GIVEN -- a
+    one-element chain selects tables, a two-element chain children of the tables its first element
+    selects, with the [type=...] selectors and the cascade of C19_exclude_exact_except -- and every
+    other schema unchanged.  The reference never forms a qualified string; the proof goes through
+    the code's own route (split of the qualified string by the csv model, [filepath.Match] of the
+    literal schema name = equality, C19_exclude_exact_except on the qualified chains).
+    Not covered: schema names that are not plain (observation in notes/C19.md: no quoting). *)
+From Atlas Require Import Excl.ScopeSpec Excl.ScopeProofs.
+
+Theorem C19_exclude_schema_scope :
+  forall (link : bool * bool) (r : realm) (s : schema) (patterns : list bytes) (G : list (list bytes)),
+    plain_schema_name (s_name s) -> split patterns = EOk G -> scope_chains_ok G ->
+    ExcludeSchema link r s patterns = EOk (scope_realm link (s_name s) G r)
+    /\ (forall m : bytes, Match (s_name s) m = Ok (bytes_eqb (s_name s) m)).
+Proof.
+  intros link r s patterns G Hn Hs HG. split.
+  - exact (ExcludeSchema_scope link r s patterns G Hn Hs HG).
+  - intros m. exact (Match_plain (s_name s) m Hn).
+Qed.
+Print Assumptions C19_exclude_schema_scope.
+
+Theorem C19_scope_chains_ok_wf :
+  forall G : list (list bytes),
+    Forall (fun g => g <> [] /\ List.length g <= 2 /\ Forall (fun v => WellFormed (glob_of v)) g) G -> scope_chains_ok G.
+Proof.
+  intros G H. unfold scope_chains_ok. eapply Forall_impl; [|exact H]. intros g (H1 & H2 & H3).
+  split; [exact H1|]. split; [exact H2|]. eapply Forall_impl; [|exact H3].
+  intros v Hw n. exact (Match_total (glob_of v) n Hw).
+Qed.
+Print Assumptions C19_scope_chains_ok_wf.
+
+(** non-vacuity, names that coincide: schema main { table main (columns main, secret; index secret
+    on secret), table secret (column main) }, schema secret { table main (column secret) }.
+    At the scope of schema main: pattern main.secret removes column secret and index secret of TABLE main
+    and keeps table secret; pattern main removes table main only; schema secret is untouched by both. *)
+Definition sc_col (n : bytes) : column := mkColumn n 2 [105;110;116]%N false None None None.
+Definition sc_main : bytes := [109;97;105;110]%N.
+Definition sc_secret : bytes := [115;101;99;114;101;116]%N.
+Definition sc_realm : realm :=
+  [mkSchema sc_main
+     [mkTable sc_main false false [sc_col sc_main; sc_col sc_secret] None
+        [mkIndex sc_secret false [mkPart 0 false (Some sc_secret) None] None None None] [] [];
+      mkTable sc_secret false false [sc_col sc_main] None [] [] []];
+   mkSchema sc_secret [mkTable sc_main false false [sc_col sc_secret] None [] [] []]].
+Definition sc_s0 : schema := match sc_realm with s :: _ => s | [] => mkSchema [] [] end.
+
+Example C19_exclude_schema_scope_nonvacuous :
+  plain_schema_name (s_name sc_s0)
+  /\ ExcludeSchema (true, true) sc_realm sc_s0 [sc_main ++ [46]%N ++ sc_secret]
+     = EOk [mkSchema sc_main
+              [mkTable sc_main false false [sc_col sc_main] None [] [] [];
+               mkTable sc_secret false false [sc_col sc_main] None [] [] []];
+            mkSchema sc_secret [mkTable sc_main false false [sc_col sc_secret] None [] [] []]]
+  /\ ExcludeSchema (true, true) sc_realm sc_s0 [sc_main]
+     = EOk [mkSchema sc_main [mkTable sc_secret false false [sc_col sc_main] None [] [] []];
+            mkSchema sc_secret [mkTable sc_main false false [sc_col sc_secret] None [] [] []]]
+  /\ scope_realm (true, true) sc_main [[sc_main; sc_secret]] sc_realm
+     = [mkSchema sc_main
+              [mkTable sc_main false false [sc_col sc_main] None [] [] [];
+               mkTable sc_secret false false [sc_col sc_main] None [] [] []];
+            mkSchema sc_secret [mkTable sc_main false false [sc_col sc_secret] None [] [] []]].
+Proof. split; [vm_compute; reflexivity|]. split; [vm_compute; reflexivity|]. split; vm_compute; reflexivity. Qed.
